@@ -118,6 +118,8 @@ func classifyErr(err error) string {
 	switch {
 	case strings.Contains(s, "context deadline exceeded"):
 		return "timeout"
+	case strings.Contains(s, "failed to decode ammo"), strings.Contains(s, "scan() err"), strings.Contains(s, "no ammo in file"):
+		return "provider-" + classifyProviderText(s)
 	case strings.Contains(s, "shoot panic"):
 		return "shoot-panic:" + Enc(Trunc(s, 120))
 	default:
@@ -202,6 +204,38 @@ func (m *Manual) Acquire(d time.Duration) (core.Ammo, bool, bool) {
 	case <-time.After(d):
 		return nil, false, true
 	}
+}
+
+// ProviderEnd waits for the provider's Run to return and classifies its result: ok (nil), decode (a line could not be
+// decoded), scan (the file could not be read to its end: a line longer than the scanner's buffer), noammo, other:<text>;
+// running = it has not returned.
+func (m *Manual) ProviderEnd(d time.Duration) string {
+	select {
+	case err := <-m.provErr:
+		m.provErr <- err
+		return ClassifyProviderErr(err)
+	case <-time.After(d):
+		return "running"
+	}
+}
+
+func ClassifyProviderErr(err error) string {
+	if err == nil {
+		return "ok"
+	}
+	return classifyProviderText(err.Error())
+}
+
+func classifyProviderText(s string) string {
+	switch {
+	case strings.Contains(s, "failed to decode ammo"):
+		return "decode"
+	case strings.Contains(s, "scan() err"), strings.Contains(s, "token too long"):
+		return "scan"
+	case strings.Contains(s, "no ammo in file"):
+		return "noammo"
+	}
+	return "other:" + Enc(Trunc(s, 100))
 }
 
 func (m *Manual) Close() {
